@@ -168,3 +168,22 @@ add("C09", "model_checking",
     "words without spaces; debug mode excluded by the property; the barrier's own statistics block is judged on every 40th step; "
     "addresses are representatives of digit-count classes (adequacy argued from the printer's code, see C12).",
     "DESIGN.md 6 (C09), 5.3")
+
+add("C17", "model_checking",
+    "TLA+/TLC: product of a reloaded and a fresh copy of the implementation-shaped request engine over every pair (and bounded chains) of "
+    "service tables, with the config.c merge walk and hook deliveries modelled explicitly (Reload.tla), plus the class-rule cache model "
+    "(ReloadCls.tla); contract refinement (IAuthContract RL event); conformance by TLC-generated reload histories replayed on the ASan "
+    "daemon (rewrite file, SIGUSR1, log hand-shake) and judged by TLC differentially against a freshly started daemon (ReloadDiff.tla) and "
+    "against contract and spec (ReloadTrace.tla, ClassTrace.tla)",
+    "TLC checks for every (old, new) pair of service tables over 2 names x {4 protocol types, an unknown word, absent} (1 296 pairs; "
+    "thorough: 3 names, 46 656 pairs, 2-reload chains, a free probe environment), with an earlier client idle / completed / pending / "
+    "disconnected while awaited across the reload, that the probe client's outputs equal those of the fresh engine step by step "
+    "(ProbeEq, ProbeLive) and that the slot table refines the file in force (24 100 states quick; ~5e5 thorough); for rule sections over "
+    "<=3 names that the compiled vector equals compile(new) (VecFresh, AllHooked). Seven model mutants (D10, D11, KEEPCONF, NORETYPE, "
+    "NOKIDHOOK, ACCUM) must be caught on every run. Real daemon: 681 service histories + 120 rule-table chains (240 reloads) in quick "
+    "(~1e4 + 2 400 thorough), each also run on a fresh daemon on the new file; TLC compares `? config` (configured set) and every probe "
+    "step (multiset, tags renamed).",
+    "Only clients arriving after the reload are judged. Exhaustive for the stated universes; richer rule tables and edit chains are "
+    "seeded samples. Names differing only in letter case are one configuration entry (config keys are case-insensitive) and are not "
+    "generated; non-string entries and more than 32 services are outside the generated space.",
+    "DESIGN.md 6 (C17), 8 (D10, D11), 9")
